@@ -76,5 +76,94 @@ def bigLine : List String → String
     | _, _ => ""
   | _ => ""
 
+/-! ### limb-exact bigint ops: operands and results are `p`/`n` + little-endian hex words, e.g. `n1,0,ff` -/
+
+def hexNat? (cs : List Char) : Option Nat :=
+  if cs = [] then none
+  else cs.foldl (fun acc c => match acc, Wire.hexVal c with
+    | some a, some d => some (a * 16 + d)
+    | _, _ => none) (some 0)
+
+def hexOfNat (n : Nat) : String :=
+  String.ofList ((Nat.toDigits 16 n))
+
+def limbsOfString (s : String) : Option BigInt.Big :=
+  match s.toList with
+  | sg :: rest =>
+    if sg ≠ 'p' ∧ sg ≠ 'n' then none
+    else if rest = [] then some { neg := sg = 'n', mag := [] }
+    else
+      let parts := (String.ofList rest).splitOn ","
+      let ws := parts.map fun t => hexNat? t.toList
+      if ws.all Option.isSome then some { neg := sg = 'n', mag := ws.filterMap id } else none
+  | [] => none
+
+def limbsToString (b : BigInt.Big) : String :=
+  (if b.neg then "n" else "p") ++ ",".intercalate (b.mag.map hexOfNat)
+
+def magToString (m : List Nat) : String := limbsToString { neg := false, mag := m }
+
+/-- division by 10^19 on word lists (the parameter of `BigInt.toDecimal`): the model's `divide` where it has
+    one, exact arithmetic on the value for the general (Knuth) exit -/
+def div19 (v : List Nat) : List Nat × Nat :=
+  match BigInt.divWord v 10000000000000000000 with
+  | some (q, r) => (q, r.headD 0)                       -- the modelled `divide` exits (values of one word)
+  | none =>
+    let n := limbsVal v
+    (natToLimbs 100000 (n / 10000000000000000000), n % 10000000000000000000)
+
+def bigLimbLine : List String → String
+  | ["mulw", a, w] =>
+    match limbsOfString a, hexNat? w.toList with
+    | some x, some y => "ok " ++ limbsToString (BigInt.mulWordBig x y)
+    | _, _ => "bad-op"
+  | ["mul", a, b] =>
+    match limbsOfString a, limbsOfString b with
+    | some x, some y => "ok " ++ limbsToString (BigInt.mul x y)
+    | _, _ => "bad-op"
+  | ["add", a, b] =>
+    match limbsOfString a, limbsOfString b with
+    | some x, some y => "ok " ++ limbsToString (BigInt.add 4 x y)
+    | _, _ => "bad-op"
+  | ["sub", a, b] =>
+    match limbsOfString a, limbsOfString b with
+    | some x, some y => "ok " ++ limbsToString (BigInt.sub 4 x y)
+    | _, _ => "bad-op"
+  | ["shl", a, k] =>
+    match limbsOfString a, k.toNat? with
+    | some x, some n => "ok " ++ limbsToString (BigInt.shl x n)
+    | _, _ => "bad-op"
+  | ["shr", a, k] =>
+    match limbsOfString a, k.toNat? with
+    | some x, some n => "ok " ++ limbsToString (BigInt.shr x n)
+    | _, _ => "bad-op"
+  | ["parse", t] =>
+    match xArg t with
+    | none => "bad-op"
+    | some s => match BigInt.ofDecimal s with
+      | none => "err"
+      | some v => "ok " ++ limbsToString v
+  | ["frombytes", sg, t] =>
+    match sg.toInt?, xArg t with
+    | some i, some s => "ok " ++ limbsToString (BigInt.fromBytesBE i s)
+    | _, _ => "bad-op"
+  | ["tobytes", a] =>
+    match limbsOfString a with
+    | some x => let r := BigInt.toBytesBE x; "ok " ++ toString r.1 ++ " x" ++ Wire.hexOfBytes r.2
+    | none => "bad-op"
+  | ["divw", a, w] =>
+    match limbsOfString a, hexNat? w.toList with
+    | some x, some d =>
+      if d = 0 then "divzero"
+      else match BigInt.divWord x.mag d with
+        | some (q, r) => "ok " ++ limbsToString { neg := x.neg, mag := q } ++ " " ++ limbsToString { neg := x.neg, mag := r }
+        | none => ""
+    | _, _ => "bad-op"
+  | ["tostr", a] =>
+    match limbsOfString a with
+    | some x => "ok x" ++ Wire.hexOfBytes (BigInt.toDecimal div19 x)
+    | none => "bad-op"
+  | _ => "bad-op"
+
 end Drv
 end JV
